@@ -78,6 +78,7 @@ struct History {
   std::map<std::string, long> cls;             // classification counters of this history
   std::vector<std::string> trace;              // decoded operations (for samples and replay output)
   long evals = 0;
+  struct LastEval { bool valid = false; int api = 0, idx = 0; long double args[4] = {0, 0, 0, 0}; } last_eval[2];
 
   void fail(const std::string &prop, const std::string &msg) { fails.push_back({prop, msg, step}); }
   bool failed() const { return !fails.empty(); }
@@ -126,6 +127,11 @@ struct History {
     if (o.n % 3 != 0 && !mine.empty()) api = mine[(unsigned)o.api % mine.size()];
     bool provided = pit != cs.provides.end() && pit->second.count(T[api].id); bool unspec = cs.unspecified.count(m.name) && cs.unspecified.at(m.name).count(T[api].id);
     Scalar args[4]; for (int i = 0; i < 4; i++) args[i] = decode_arg<Scalar>(o.v[i]); int idx = o.idx % 12 - 4;
+    // one call in four repeats the previous evaluator at the previous point (bit-identical arguments): values cached per point or per time
+    // and not refreshed by an intervening set_param / select / init only show up that way
+    LastEval &le = last_eval[P]; if (o.n % 4 == 1 && le.valid && le.api < (int)T.size()) { api = le.api; for (int i = 0; i < 4; i++) args[i] = (Scalar)le.args[i]; idx = le.idx; cls["eval_repeats_previous_point"]++; }
+    le.valid = true; le.api = api; for (int i = 0; i < 4; i++) le.args[i] = (long double)args[i]; le.idx = idx;
+    provided = pit != cs.provides.end() && pit->second.count(T[api].id); unspec = cs.unspecified.count(m.name) && cs.unspecified.at(m.name).count(T[api].id);
     char ab[200]; snprintf(ab, sizeof ab, "%s on %s '%s' args=(%Lg,%Lg,%Lg,%Lg) idx=%d", T[api].id, m.name.c_str(), R.selected.c_str(), (long double)args[0], (long double)args[1], (long double)args[2], (long double)args[3], idx); trace.back() += std::string(" ") + ab;
     if (unspec) { cls["eval_unspecified"]++; return; }
     EvalResult r = do_eval<Scalar>(api, args, idx); evals++;
